@@ -122,7 +122,12 @@ def class_decl(c, indent):
                                                 args_decl(m["args"], this, ps)))
     for p in c["props"]:
         out.append("%s  %s %s;" % (pad, ctype(p["t"], this, params), p["name"]))
+    def selfed(t):      # the class's own (unqualified) name inside the class means the class at hand
+        t = dict(t, args=[selfed(a) for a in t["args"]])
+        return dict(t, qn=["This"]) if t["qn"] == [c["name"]] else t
     for o in c["ops"]:
+        o = dict(o, ret=dict(o["ret"], t1=selfed(o["ret"]["t1"]), t2=selfed(o["ret"]["t2"])),
+                 args=[dict(a, t=selfed(a["t"])) for a in o["args"]])
         out.append("%s  %s operator%s(%s) const;" % (pad, ret_decl(o["ret"], this, params), o["op"], args_decl(o["args"], this, params)))
     if c["dunders"]:
         out.append(pad + "  const int* begin() const; const int* end() const;")
